@@ -221,6 +221,8 @@ def run(rep):
                 rep.violation("SWTForward with column wavelet %s and row wavelet %s differs from pywt.swt2((%s, %s)) by %.3g (bound %.3g) at %s"
                               % (wc, wr, wc, wr, err, bound, cfg), {"api": "SWTForward", "check": "swt_numeric_pair", "cfg": cfg})
     rep.count("swt_numeric_comparisons", n_num)
+    from .. import scalechecks
+    scalechecks.swt(rep, "C13", tier)
     rep.assumptions += ["sizes are multiples of 2^J as pywt.swt2 requires", "bounded sizes/dilations (coverage.tlc_runs)"]
 
 
